@@ -182,7 +182,7 @@ class Sample(object):
         After determining the activation, compute the number of hours required to achieve
         a total activation level after decay.
         """
-        if not self.rest_times or not self.activity:
+        if len(self.rest_times) == 0 or not self.activity:
             return 0
 
         # Use the activity on removal from the beam and the decay rate. The
